@@ -214,6 +214,9 @@ impl Array6 {
             .map_err(insufficient_data("aux_count"))?; // always 0
 
         // Read packed byte array from offset HLL_BYTE_ARR_START
+        if cursor.remaining() < num_bytes {
+            return Err(Error::insufficient_data("data"));
+        }
         let mut data = vec![0u8; num_bytes];
         // The register bytes are present in compact and updatable images alike.
         cursor
